@@ -41,7 +41,13 @@ pub fn check(c: &Case) -> Outcome {
     } else {
         filled.clone()
     };
-    let got = textwrap::refill(&input, c.o2.options());
+    // options by value or by reference (two different conversions)
+    let got = if c.w1b % 2 == 1 {
+        let o = c.o2.options();
+        textwrap::refill(&input, &o)
+    } else {
+        textwrap::refill(&input, c.o2.options())
+    };
     let mut o2i = c.o2.clone();
     o2i.initial_indent = c.o1.initial_indent.clone();
     o2i.subsequent_indent = c.o1.subsequent_indent.clone();
